@@ -1296,8 +1296,11 @@ class TimeGPSWeekSec(TimeFormat):
         if np.any(jd1 + jd2 < cls._jd19800106):
             raise ValueError(f"Julian Day exceeds the GPS time start date of 6-Jan-1980 (JD {cls._jd19800106})")
 
-        # See Time.jd_int for explanation
-        _delta = jd1 - (np.floor(jd1 + jd2 - 0.5) + 0.5)
+        # See Time.jd_int for explanation: whole days are found on the day part and the (small) rest separately, a
+        # single float Julian date only resolves 40 us
+        day = np.floor(jd1 - 0.5)
+        rest = (jd1 - 0.5 - day) + jd2
+        _delta = jd1 - (day + np.floor(rest) + 0.5)
         jd_int = jd1 - _delta
         jd_frac = jd2 + _delta
 
